@@ -44,7 +44,23 @@ def rule_sign_conventions(ck, repo, R):
     imp_t = [n for n in ast.walk(ff.node) if isinstance(n, ast.Call) and src(n.func) == 'tetrahedron_stereo.append']
     ck.require(len(imp_t) == 1, 'from_rdkit_molecule: tetrahedron stereo collection not found')
     last = src(imp_t[0].args[0].elts[-1])
-    ck.decide(last == 's == _chiral_ccw', R, 'import:tetrahedron-polarity', last, f'import maps the chiral tag to a sign by `{last}`; export maps True to CCW', file=ff.file, line=imp_t[0].lineno)
+
+    def is_tag_eq(e, const, getter):
+        """`<x> == const` where x is whatever holds <rdkit object>.<getter>() (any local name)"""
+        if not (isinstance(e, ast.Compare) and len(e.ops) == 1 and isinstance(e.ops[0], ast.Eq)):
+            return False
+        l, r = e.left, e.comparators[0]
+        if src(l) == const:
+            l, r = r, l
+        if src(r) != const:
+            return False
+        if isinstance(l, ast.Call):
+            return src(l.func).endswith('.' + getter)
+        if isinstance(l, ast.Name):
+            return any(isinstance(a, ast.Assign) and any(isinstance(t, ast.Name) and t.id == l.id for t in a.targets) and isinstance(a.value, ast.Call)
+                       and src(a.value.func).endswith('.' + getter) for a in ast.walk(ff.node))
+        return False
+    ck.decide(is_tag_eq(imp_t[0].args[0].elts[-1], '_chiral_ccw', 'GetChiralTag'), R, 'import:tetrahedron-polarity', last, f'import maps the chiral tag to a sign by `{last}`; export maps True to CCW', file=ff.file, line=imp_t[0].lineno)
     exp_t = [n for n in ast.walk(tf.node) if isinstance(n, ast.Call) and src(n.func) == 'ra.SetChiralTag']
     ck.require(len(exp_t) == 1, 'to_rdkit_molecule: SetChiralTag not found')
     def polarity(e, fn):
@@ -61,17 +77,19 @@ def rule_sign_conventions(ck, repo, R):
               f'export sets the chiral tag as `{src(exp_t[0].args[0])}`; import reads CCW as True', file=tf.file, line=exp_t[0].lineno)
     imp_c = [n for n in ast.walk(ff.node) if isinstance(n, ast.Call) and src(n.func) == 'cis_trans_stereo.append']
     ck.require(len(imp_c) == 1, 'from_rdkit_molecule: cis/trans stereo collection not found')
-    ck.decide(src(imp_c[0].args[0].elts[-1]) == 's == _cis', R, 'import:cis-polarity', src(imp_c[0].args[0].elts[-1]), 'import no longer maps Z to True', file=ff.file, line=imp_c[0].lineno)
+    ck.decide(is_tag_eq(imp_c[0].args[0].elts[-1], '_cis', 'GetStereo'), R, 'import:cis-polarity', src(imp_c[0].args[0].elts[-1]), 'import no longer maps Z to True', file=ff.file, line=imp_c[0].lineno)
     exp_c = [n for n in ast.walk(tf.node) if isinstance(n, ast.Call) and src(n.func) == 'rb.SetStereo']
     ck.require(len(exp_c) == 1, 'to_rdkit_molecule: SetStereo not found')
     pc = polarity(exp_c[0].args[0], tf.node)
     ck.decide(pc is not None and pc[:2] == ('_cis', '_trans') and pc[2].endswith('.stereo'), R, 'export:cis-polarity', src(exp_c[0].args[0]), 'export no longer maps True to Z', file=tf.file, line=exp_c[0].lineno)
     # neighbour orders
-    ck.decide('mol._translate_tetrahedron_sign(n, [mapping[x] for x in env], s)' in fs and '[x.GetIdx() for x in ra.GetNeighbors()]' in fs, R, 'import:neighbour-order', None,
+    import re as _re
+    ck.decide(_re.search(r'mol\._translate_tetrahedron_sign\(n, \[mapping\[x\] for x in env\], \w+\)', fs) is not None and '[x.GetIdx() for x in ra.GetNeighbors()]' in fs, R, 'import:neighbour-order', None,
               'import no longer translates the tag from RDKit\'s neighbour order', file=ff.file, line=ff.lineno)
     ck.decide('env = [inverted[x.GetIdx()] for x in ra.GetNeighbors()]' in ts and 'data._translate_tetrahedron_sign(n, env)' in ts, R, 'export:neighbour-order', None,
               'export no longer translates the sign to RDKit\'s neighbour order', file=tf.file, line=tf.lineno)
-    ck.decide('mol._translate_cis_trans_sign(n, m, nn, nm, s)' in fs and 'nn, nm = b.GetStereoAtoms()' in fs and 'mapping[nn], mapping[nm]' in fs, R, 'import:stereo-atoms', None,
+    ck.decide(_re.search(r'mol\._translate_cis_trans_sign\(n, m, nn, nm, \w+\)', fs) is not None and _re.search(r'nn, nm = \w+\.GetStereoAtoms\(\)', fs) is not None
+              and 'mapping[nn], mapping[nm]' in fs, R, 'import:stereo-atoms', None,
               'import no longer translates the Z/E flag from RDKit\'s stereo atoms', file=ff.file, line=ff.lineno)
     ck.decide('n1, m1, *_ = data.stereogenic_cis_trans[nm]' in ts and 'rb.SetStereoAtoms(mapping[n1], mapping[m1])' in ts, R, 'export:stereo-atoms', None,
               'export no longer names the reference substituents of the stored sign as stereo atoms', file=tf.file, line=tf.lineno)
@@ -106,7 +124,9 @@ def rule_attribute_coverage(ck, repo, R):
     want = {'SetNumExplicitHs': 'a.implicit_hydrogens', 'SetAtomMapNum': 'n', 'SetFormalCharge': 'a.charge', 'SetIsotope': 'a.isotope', 'SetNumRadicalElectrons': '1',
             'SetChiralTag': '<sign>'}
     ck.decide(exp == want, R, 'export:values', exp, f'export sets {exp}', file=tf.file, line=tf.lineno)
-    ck.decide('atom.xy = (x, y)' in src(ff.node) and 'conf.SetAtomPosition(mapping[n], (a.x, a.y, 0))' in src(tf.node), R, 'coordinates', None, '2D coordinates are no longer transferred both ways', file=ff.file, line=ff.lineno)
+    import re as _re2
+    ck.decide(_re2.search(r'\b\w+\.xy = \((\w+), (\w+)\)', src(ff.node)) is not None and
+              '.SetAtomPosition(' in src(tf.node) and _re2.search(r'\((\w+)\.x, \1\.y, 0\)', src(tf.node)) is not None, R, 'coordinates', None, '2D coordinates are no longer transferred both ways', file=ff.file, line=ff.lineno)
 
 
 def rule_import_revalidates(ck, repo, R):
@@ -146,3 +166,36 @@ def rule_import_revalidates(ck, repo, R):
                   f'fix_stereo() in from_rdkit_molecule is guarded by `{" and ".join(src(g) for g in guards)}`, which is not implied by `{w}` being non-empty: labels copied '
                   f'from that collection alone are never re-validated', file=f.file, line=calls[0].lineno, func=f.qualname, construct=src(guards[0]) if guards else None)
     ck.floor(R, 3)
+
+
+def rule_index_inverse(ck, repo, R):
+    """C20: to_rdkit_molecule numbers RDKit atoms in the order it adds them (mapping[n] = mol.AddAtom(..)); whatever is indexed by an RDKit atom index to get
+    back the chython atom number must be the inverse of that mapping (or the keys in INSERTION order) -- not the sorted atom numbers"""
+    ck.rule(R, 'in to_rdkit_molecule every table subscripted with `<atom>.GetIdx()` is the inverse of the atom-number -> RDKit-index mapping: `{v: k for k, v in mapping.items()}`, '
+               '`dict(zip(mapping.values(), mapping))`, or list(mapping) / tuple(mapping) (insertion order = index order); a sorted list is right only for molecules stored in '
+               'ascending atom order')
+    from .astutil import single_defs
+    f = repo.func('chython.utils.rdkit:to_rdkit_molecule')
+    defs = single_defs(f.node)
+    n = 0
+    for s_ in ast.walk(f.node):
+        if isinstance(s_, ast.Subscript) and isinstance(s_.ctx, ast.Load) and isinstance(s_.value, ast.Name) and isinstance(s_.slice, ast.Call) \
+                and isinstance(s_.slice.func, ast.Attribute) and s_.slice.func.attr == 'GetIdx':
+            n += 1
+            d = defs.get(s_.value.id)
+            ok = False
+            if isinstance(d, ast.DictComp) and len(d.generators) == 1 and isinstance(d.generators[0].target, ast.Tuple) and len(d.generators[0].target.elts) == 2:
+                k_, v_ = (src(e) for e in d.generators[0].target.elts)
+                ok = src(d.key) == v_ and src(d.value) == k_ and src(d.generators[0].iter).endswith('.items()')
+            elif isinstance(d, ast.Call) and src(d.func) in ('list', 'tuple') and len(d.args) == 1 and isinstance(d.args[0], (ast.Name, ast.Call)) and 'sorted' not in src(d):
+                ok = True
+            elif isinstance(d, ast.Call) and src(d.func) == 'dict' and 'zip(' in src(d) and '.values()' in src(d):
+                ok = True
+            elif d is None or (isinstance(d, ast.Dict) and not d.keys) or (isinstance(d, ast.Call) and src(d) in ('dict()', 'list()')):
+                # filled in the atom loop: inverted[idx] = n
+                ok = any(isinstance(a, ast.Assign) and isinstance(a.targets[0], ast.Subscript) and src(a.targets[0].value) == s_.value.id for a in ast.walk(f.node))
+            ck.decide(ok, R, f'inverse:{s_.value.id}', src(d) if d is not None else None,
+                      f'to_rdkit_molecule looks chython atom numbers up as `{src(s_)}` where `{s_.value.id} = {src(d) if d is not None else "?"}`: that is not the inverse of the '
+                      f'index mapping (RDKit indices follow the order atoms were added, i.e. the storage order of the molecule, not the sorted atom numbers): stereo neighbours '
+                      f'are translated to wrong atoms for molecules stored out of ascending order', file=f.file, line=s_.lineno, func=f.qualname, construct=src(s_))
+    ck.require(n >= 1, 'to_rdkit_molecule: no lookup by RDKit atom index found')
